@@ -93,17 +93,19 @@ Step(src, st, U, s) ==
   ELSE IF o = "raise" THEN
      \* the test body raises an exception of its own: no site is touched
      [st |-> st, res |-> "EX", miss |-> 0, inc |-> 0]
-  ELSE IF o \in {"eqbad", "inbad"} THEN
-     \* the compared value cannot be copied faithfully (its deep copy is not equal to it): a usage error,
-     \* nothing is recorded; the operation still fixes the kind of the site (generic_value.py:clone)
-     LET k == IF o = "eqbad" THEN "eq" ELSE "in" IN
+  ELSE IF o \in {"eqbad", "inbad", "eqnc", "innc"} THEN
+     \* the compared value cannot be copied faithfully: its deep copy is not equal to it (a usage error) or
+     \* copy.deepcopy refuses it ("nc": a TypeError); nothing is recorded - never the live object - the operation
+     \* still fixes the kind of the site (generic_value.py:clone)
+     LET k == IF o \in {"eqbad", "eqnc"} THEN "eq" ELSE "in"
+         err == IF o \in {"eqnc", "innc"} THEN "TE" ELSE "UE" IN
      IF st.kind # "undecided" /\ st.kind # k
      THEN [st |-> [st EXCEPT !.ev = TRUE], res |-> "TE", miss |-> 0, inc |-> 0]
-     ELSE IF o = "eqbad" /\ st.new # <<>>
+     ELSE IF o \in {"eqbad", "eqnc"} /\ st.new # <<>>
           \* an == site copies only the first value it is compared with; later it just answers (the value is
           \* equal to nothing)
           THEN [st |-> st, res |-> "F", miss |-> IF src.def THEN 0 ELSE 1, inc |-> 1]
-          ELSE [st |-> [kind |-> k, new |-> st.new, ev |-> TRUE], res |-> "UE", miss |-> IF src.def THEN 0 ELSE 1, inc |-> 0]
+          ELSE [st |-> [kind |-> k, new |-> st.new, ev |-> TRUE], res |-> err, miss |-> IF src.def THEN 0 ELSE 1, inc |-> 0]
   ELSE IF o \in {"lebot", "gebot"} THEN
      \* a bound comparison with a value of an incomparable type: the comparison raises TypeError; the first
      \* operation still fixes the kind of the site, nothing is recorded (min_max_value.py)
